@@ -352,8 +352,9 @@ static void SUF(step)(FILE *fi, FILE *fr, FILE *fo, int lim)
 }
 
 /* execute one request line (tokens) on fresh objects: used for replay and shrinking */
-static int SUF(exec)(char **tok, int ntok, FILE *fr)
+static int SUF(exec)(char **tok, int ntok, FILE *fr, FILE *fo)
 {
+    SUF(pre_ok)=1;
     int pos=2; const char *op=tok[0];
     RT D,A,B; int ret=1;
     #define NEED(k) if (pos+(k)>ntok) return 0
@@ -363,18 +364,28 @@ static int SUF(exec)(char **tok, int ntok, FILE *fr)
         RT *pa=&A,*pb=&B,*pd=&D;
         if (same) pb=pa;
         if (al=='1') pd=pa; else if (al=='2') pd=pb;
-        ret = !strcmp(op,"union")?P(_union)(pd,pa,pb): !strcmp(op,"intersect")?P(_intersect)(pd,pa,pb):P(_subtract)(pd,pa,pb);
-        SUF(out_res)(fr,ret,pd); return 1;
+        RT ca,cb; P(_init)(&ca); P(_init)(&cb); P(_copy)(&ca,pa); P(_copy)(&cb,pb);
+        SUF(pre_ok) = !SUF(canon)(pa) && !SUF(canon)(pb);
+        int which = !strcmp(op,"union")?0: !strcmp(op,"intersect")?1:2;
+        ret = which==0?P(_union)(pd,pa,pb): which==1?P(_intersect)(pd,pa,pb):P(_subtract)(pd,pa,pb);
+        SUF(out_res)(fr,ret,pd);
+        if (fo) { if(!ret) SUF(oracle_fail)(fo,"operation reported failure"); const char*e=SUF(algebra)(which,pd,&ca,&cb,NULL); if(e) SUF(oracle_fail)(fo,e); SUF(post)(fo,pd); }
+        return 1;
     }
     if (!strcmp(op,"union_rect")||!strcmp(op,"intersect_rect")) {
         char al='n'; if (!strcmp(op,"union_rect")) { NEED(1); al=tok[pos++][0]; }
         if (!SUF(deser)(tok,&pos,ntok,&D)||!SUF(deser)(tok,&pos,ntok,&A)) return 0; NEED(4);
         int x=atoi(tok[pos]),y=atoi(tok[pos+1]); unsigned w=strtoul(tok[pos+2],0,10),h=strtoul(tok[pos+3],0,10);
         RT *pd = al=='1'?&A:&D;
-        ret = !strcmp(op,"union_rect")?P(_union_rect)(pd,&A,x,y,w,h):P(_intersect_rect)(pd,&A,x,y,w,h);
-        SUF(out_res)(fr,ret,pd); return 1;
+        RT ca; P(_init)(&ca); P(_copy)(&ca,&A); SUF(pre_ok) = !SUF(canon)(&A);
+        BT ib={x,y,x+(int)w,y+(int)h}; int isu=!strcmp(op,"union_rect");
+        ret = isu?P(_union_rect)(pd,&A,x,y,w,h):P(_intersect_rect)(pd,&A,x,y,w,h);
+        SUF(out_res)(fr,ret,pd);
+        if (fo) { if(!ret) SUF(oracle_fail)(fo,"operation reported failure"); const char*e=SUF(algebra)(isu?4:5,pd,&ca,NULL,&ib); if(e) SUF(oracle_fail)(fo,e); SUF(post)(fo,pd); }
+        return 1;
     }
-    if (!strcmp(op,"inverse")) { if (!SUF(deser)(tok,&pos,ntok,&D)||!SUF(deser)(tok,&pos,ntok,&A)) return 0; NEED(4); BT b={atoi(tok[pos]),atoi(tok[pos+1]),atoi(tok[pos+2]),atoi(tok[pos+3])}; ret=P(_inverse)(&D,&A,&b); SUF(out_res)(fr,ret,&D); return 1; }
+    if (!strcmp(op,"inverse")) { if (!SUF(deser)(tok,&pos,ntok,&D)||!SUF(deser)(tok,&pos,ntok,&A)) return 0; NEED(4); BT b={atoi(tok[pos]),atoi(tok[pos+1]),atoi(tok[pos+2]),atoi(tok[pos+3])}; RT ca; P(_init)(&ca); P(_copy)(&ca,&A); SUF(pre_ok)=!SUF(canon)(&A); ret=P(_inverse)(&D,&A,&b); SUF(out_res)(fr,ret,&D);
+        if (fo) { if(!ret) SUF(oracle_fail)(fo,"operation reported failure"); const char*e=SUF(algebra)(3,&D,&ca,NULL,&b); if(e) SUF(oracle_fail)(fo,e); SUF(post)(fo,&D); } return 1; }
     if (!strcmp(op,"init_rects")) { NEED(1); int n=atoi(tok[pos++]); NEED(4*n); BT *bx=malloc(sizeof(BT)*(n+1)); for(int i=0;i<n;i++){bx[i].x1=atoi(tok[pos++]);bx[i].y1=atoi(tok[pos++]);bx[i].x2=atoi(tok[pos++]);bx[i].y2=atoi(tok[pos++]);} ret=P(_init_rects)(&D,bx,n); free(bx); SUF(out_res)(fr,ret,&D); return 1; }
     if (!strcmp(op,"init_rect")) { NEED(4); P(_init_rect)(&D,atoi(tok[pos]),atoi(tok[pos+1]),strtoul(tok[pos+2],0,10),strtoul(tok[pos+3],0,10)); SUF(out_res)(fr,1,&D); return 1; }
     if (!strcmp(op,"init_with_extents")) { NEED(4); BT b={atoi(tok[pos]),atoi(tok[pos+1]),atoi(tok[pos+2]),atoi(tok[pos+3])}; P(_init_with_extents)(&D,&b); SUF(out_res)(fr,1,&D); return 1; }
@@ -385,7 +396,13 @@ static int SUF(exec)(char **tok, int ntok, FILE *fr)
     if (!strcmp(op,"not_empty")) { if (!SUF(deser)(tok,&pos,ntok,&A)) return 0; fprintf(fr,"%d\n",P(_not_empty)(&A)); return 1; }
     if (!strcmp(op,"contains_point")) { if (!SUF(deser)(tok,&pos,ntok,&A)) return 0; NEED(2); BT out={0,0,0,0}; ret=P(_contains_point)(&A,atoi(tok[pos]),atoi(tok[pos+1]),&out); if(ret) fprintf(fr,"1 %d %d %d %d\n",(int)out.x1,(int)out.y1,(int)out.x2,(int)out.y2); else fprintf(fr,"0\n"); return 1; }
     if (!strcmp(op,"contains_rect")) { if (!SUF(deser)(tok,&pos,ntok,&A)) return 0; NEED(4); BT q={atoi(tok[pos]),atoi(tok[pos+1]),atoi(tok[pos+2]),atoi(tok[pos+3])}; ret=P(_contains_rectangle)(&A,&q); fprintf(fr,"%s\n",ret==PIXMAN_REGION_IN?"IN":ret==PIXMAN_REGION_OUT?"OUT":"PART"); return 1; }
-    if (!strcmp(op,"translate")) { if (!SUF(deser)(tok,&pos,ntok,&A)) return 0; NEED(2); P(_translate)(&A,atoi(tok[pos]),atoi(tok[pos+1])); SUF(out_res)(fr,1,&A); return 1; }
+    if (!strcmp(op,"translate")) { if (!SUF(deser)(tok,&pos,ntok,&A)) return 0; NEED(2); int dx=atoi(tok[pos]),dy=atoi(tok[pos+1]); RT ca; P(_init)(&ca); P(_copy)(&ca,&A); SUF(pre_ok)=!SUF(canon)(&A); P(_translate)(&A,dx,dy); SUF(out_res)(fr,1,&A);
+        if (fo) { int n0; BT*b0=P(_rectangles)(&ca,&n0); int bad=0;
+            static long xs[MAXC], ys[MAXC]; int nx=0,ny=0; SUF(coords)(&A,xs,&nx,ys,&ny);
+            for(int i=0;i<n0&&nx<MAXC-8;i++) for(int dd=-1;dd<=1;dd++){ xs[nx++]=(long)b0[i].x1+dx+dd; xs[nx++]=(long)b0[i].x2+dx+dd; ys[ny++]=(long)b0[i].y1+dy+dd; ys[ny++]=(long)b0[i].y2+dy+dd; }
+            xs[nx++]=CMIN; xs[nx++]=(long)CMAX-1; xs[nx++]=CMAX; ys[ny++]=CMIN; ys[ny++]=(long)CMAX-1; ys[ny++]=CMAX; nx=SUF(uniq)(xs,nx); ny=SUF(uniq)(ys,ny);
+            for(int i=0;i<nx&&!bad;i++)for(int j=0;j<ny&&!bad;j++){ long x=xs[i],y=ys[j]; if(x<CMIN||x>CMAX||y<CMIN||y>CMAX)continue; int want=(x<CMAX&&y<CMAX)&&SUF(mem)(&ca,x-dx,y-dy); if(want!=SUF(mem)(&A,x,y)){ char m[128]; snprintf(m,sizeof m,"translate point (%ld,%ld): expected %d",x,y,want); SUF(oracle_fail)(fo,m); bad=1; } }
+            SUF(post)(fo,&A); } return 1; }
     if (!strcmp(op,"from_image")) { NEED(2); int w=atoi(tok[pos++]),h=atoi(tok[pos++]); NEED(h); int stride=((w+31)/32)*4; uint32_t*bits=calloc(1,(size_t)stride*h+8);
         for(int y=0;y<h;y++){ const char*s=tok[pos++]; for(int x=0;x<w&&s[x];x++) if(s[x]=='1') bits[y*(stride/4)+(x>>5)]|=1u<<(x&31);} pixman_image_t*img=pixman_image_create_bits(PIXMAN_a1,w,h,bits,stride); P(_init)(&D); P(_init_from_image)(&D,img); SUF(out_res)(fr,1,&D); pixman_image_unref(img); free(bits); return 1; }
     #undef NEED
